@@ -361,7 +361,7 @@ class Account:
         private_key_string, seed = self.private_key_string, self.seed
         if not self.encrypted and self.private_key:
             private_key_string = self.private_key.extended_key_string()
-        if not self.encrypted and encrypt_password:
+        if not self.encrypted and encrypt_password is not None:
             if private_key_string:
                 private_key_string = aes_encrypt(
                     encrypt_password, private_key_string, self.get_init_vector('private_key')
@@ -372,7 +372,7 @@ class Account:
             'ledger': self.ledger.get_id(),
             'name': self.name,
             'seed': seed,
-            'encrypted': bool(self.encrypted or encrypt_password),
+            'encrypted': bool(self.encrypted or encrypt_password is not None),
             'private_key': private_key_string,
             'public_key': self.public_key.extended_key_string(),
             'address_generator': self.address_generator.to_dict(self.receiving, self.change),
